@@ -100,8 +100,11 @@ var embedCatalogue = []embedDecl{
 	// two levels, and a diamond when embedded next to alpha.I or alpha.Closer
 	{"alpha.RC", pkgAlpha, []MethodJ{{Name: "Flush2"}}, []string{"alpha.I", "alpha.Closer"}},
 	{"io.ReadCloser", "io", nil, []string{"io.Reader", "io.Closer"}},
+	{"alpha.RG", pkgAlpha, []MethodJ{{Name: "RGOnly"}}, []string{"alpha.GI[int]"}},
 	{"io.Closer", "io", []MethodJ{{Name: "Close", Results: []VarJ{{Name: "", Type: errT}}}}, nil},
 }
+
+var c14Tick int
 
 func embedByName(src string) embedDecl {
 	for _, e := range embedCatalogue {
@@ -272,9 +275,15 @@ func genIface(r *rand.Rand, idx int, placement string, stream string) IfaceJ {
 	for n := range used {
 		originOf[n] = "own"
 	}
-	if r.Intn(3) == 0 {
+	// every fifth interface reaches one instantiation of a generic interface along two paths that instantiate it in
+	// different packages (alpha.RG embeds GI[int] in alpha, the interface itself embeds alpha.GI[int] in its own
+	// package): one method, two objects of the type checker
+	c14Tick++
+	forcePair := stream == "" && c14Tick%5 == 0
+	if draw := r.Intn(3) == 0; draw || forcePair {
 		for _, e := range embedCatalogue {
-			if r.Intn(3) != 0 {
+			force := forcePair && (e.src == "alpha.RG" || e.src == "alpha.GI[int]")
+			if skip := r.Intn(3) != 0; skip && !force {
 				continue
 			}
 			fm, fo := e.flatten()
